@@ -216,11 +216,11 @@ func MemYieldAll(site string) {
 	}
 	on, ok := rt.denseSel[site]
 	if !ok {
-		fn := site
+		fn, kind := site, ""
 		if i := strings.IndexByte(site, '#'); i >= 0 {
-			fn = site[:i]
+			fn, kind = site[:i], site[i+1:]
 		}
-		on = Mix(HashString(fn)^rt.Seed)%6 == 0
+		on = Mix(HashString(fn)^rt.Seed)%6 == 0 || strings.HasPrefix(kind, "rmw")
 		if rt.denseSel == nil {
 			rt.denseSel = map[string]bool{}
 		}
